@@ -52,6 +52,7 @@ func init() {
 		{"radix", enumRadix, checkRadix},
 		{"xml", enumXML, checkXML},
 		{"csv", enumCSV, checkCSV},
+		{"held", enumHeld, checkHeld},
 		{"malformed", enumMalformed, checkMalformed},
 		// the serialiser section is by far the most expensive one (every from_* decode costs
 		// ~1.5 ms in fq); it runs last so that a deadline can only cut this section
